@@ -3,7 +3,8 @@
    sending to eff_limit (0 = no limit never restricts the other value) and announces that; the
    requestor limits its sending to eff_limit of its own maximum and the acceptor's announcement.
    legal_max: 0 or at least 7 (the smallest maximum that can carry one payload byte). *)
-From PND Require Import Lib.Base Model.Negotiation Model.Dimse Proofs.NegotiationProofs Proofs.DimseProofs Proofs.MaxLenProofs.
+From PND Require Import Lib.Base Model.Pdu Model.Negotiation Model.NegoPdu Model.Dimse Proofs.NegotiationProofs Proofs.DimseProofs Proofs.MaxLenProofs
+  Proofs.MaxLenPduProofs.
 
 Theorem C10_negotiation : forall own_r own_a : N,
   NegotiationProofs.legal_max own_r -> NegotiationProofs.legal_max own_a ->
@@ -39,6 +40,60 @@ Theorem C10_both_directions : forall (own_r own_a : N) (cmd data : bytes) (pc : 
      /\ Forall (fun f => ann_r n = 0 \/ frag_pdu_length f <= ann_r n) (cs ++ ds)).
 Proof. exact both_directions_within. Qed.
 Print Assumptions C10_both_directions.
+
+(* on the PDUs themselves (AssociationAcceptor.accept, AssociationRequester._request): the peer's announcement is
+   found wherever its Maximum Length sub-item stands among the user-information sub-items - PS3.7 Annex D fixes no
+   order - and a peer that announces nothing is a peer without limit; the acceptor announces its own limit in exactly
+   that sub-item and leaves the other sub-items as they were *)
+Theorem C10_acceptor_finds_announcement : forall cfg own rq m, accept_pdu cfg own rq = Some m ->
+  acc_max m = eff_limit own (peer_announced (user_subs rq))
+  /\ user_subs (acc_pdu m) = announce (acc_max m) (user_subs rq)
+  /\ find_maxlen (user_subs (acc_pdu m)) = Some (acc_max m)
+  /\ filter (fun s => negb (is_maxlen s)) (user_subs (acc_pdu m))
+     = filter (fun s => negb (is_maxlen s)) (user_subs rq).
+Proof. exact accept_pdu_max. Qed.
+Print Assumptions C10_acceptor_finds_announcement.
+
+Theorem C10_announcement_in_place : forall v subs p, find_maxlen subs = Some p ->
+  exists before mr ml after,
+    subs = before ++ MaxLen mr ml p :: after
+    /\ set_maxlen v subs = before ++ MaxLen mr ml v :: after
+    /\ forallb (fun s => negb (is_maxlen s)) before = true.
+Proof. exact set_maxlen_split. Qed.
+Print Assumptions C10_announcement_in_place.
+
+Theorem C10_requestor_finds_announcement : forall own ctxs ac r, read_reply own ctxs ac = Some r ->
+  rep_max r = match find_maxlen (user_subs ac) with Some peer => eff_limit own peer | None => own end.
+Proof. exact read_reply_max. Qed.
+Print Assumptions C10_requestor_finds_announcement.
+
+(* the two functions on PDUs compute `negotiate` (C10_negotiation), for a requestor that announces own_r anywhere *)
+Theorem C10_on_pdus : forall cfg own_r own_a ctxs rq m r,
+  find_maxlen (user_subs rq) = Some own_r ->
+  accept_pdu cfg own_a rq = Some m -> read_reply own_r ctxs (acc_pdu m) = Some r ->
+  let n := negotiate own_r own_a in
+  acc_max m = lim_a n /\ find_maxlen (user_subs (acc_pdu m)) = Some (ann_a n) /\ rep_max r = lim_r n.
+Proof. exact pdu_negotiation. Qed.
+Print Assumptions C10_on_pdus.
+
+Theorem C10_nothing_announced : forall cfg own rq m,
+  find_maxlen (user_subs rq) = None -> accept_pdu cfg own rq = Some m ->
+  acc_max m = own /\ user_subs (acc_pdu m) = MaxLen 0 4 own :: user_subs rq.
+Proof. exact accept_without_announcement. Qed.
+Print Assumptions C10_nothing_announced.
+
+(* the premises are met: a request with the Maximum Length sub-item behind two others *)
+Example C10_on_pdus_example :
+  let rq := Assoc KRq 0 1 0 [65] [66] [0;0;0;0;0;0;0;0]
+              [AppCtx 0 APP_CONTEXT; PcRq 1 0 0 0 0 {| sy_reserved := 0; sy_name := [49] |} [{| sy_reserved := 0; sy_name := [50] |}];
+               UserInfo 0 [ImplClass 0 [49]; ImplVersion 0 [86]; MaxLen 0 4 4096]] in
+  find_maxlen (user_subs rq) = Some 4096
+  /\ match accept_pdu (mkacfg [[49]] [[50]]) 16384 rq with
+     | Some m => acc_max m = 4096 /\ user_subs (acc_pdu m) = [ImplClass 0 [49]; ImplVersion 0 [86]; MaxLen 0 4 4096]
+                 /\ match read_reply 4096 [(1, [49])] (acc_pdu m) with Some r => rep_max r = 4096 | None => False end
+     | None => False
+     end.
+Proof. vm_compute. repeat split. Qed.
 
 Example C10_example : negotiate 0 128 = mkneg 0 128 128 128 /\ negotiate 16384 0 = mkneg 16384 16384 16384 16384
                       /\ negotiate 0 0 = mkneg 0 0 0 0.
